@@ -10,6 +10,7 @@ The reference is the ideal finite set `RefineSet.sset` over a list of elements
 arbitrary `Nat`, both build profiles are covered.
 -/
 import Micromap.Proofs.RefineSet
+import Micromap.Proofs.RefineTie
 
 namespace Micromap.Props.C07
 open Micromap Micromap.Refine Micromap.RefineSet SetAlg
@@ -149,6 +150,13 @@ theorem sset_borrowed (hF : F.Lawful) (k : K) (ks : List K) (cap : Nat) :
     sset F (.remove (.q (F.borrow k))) ks cap = sset F (.remove (.key k)) ks cap ∧
     sset F (.take (.q (F.borrow k))) ks cap = sset F (.take (.key k)) ks cap := by
   simp only [sset, hitP_borrow hF k, and_self]
+
+/-- **The theorems are about what is executed**: `smrun op` is `stepSetOp` on the corresponding
+    `SetOp` of the operation language, up to the erasure of slot positions. -/
+theorem step_executes_smrun (R : Render K Unit) (other : Nat → Raw K Unit) (op : SOp K Q) (sop : SetOp K Q)
+    (h : toSetOp op = some sop) (s : St K Unit Q) :
+    Res.mapOut (viewSRV op) (stepSetOp F R other sop s) = smrun F op s :=
+  stepSetOp_eq_smrun F R other op sop h s
 
 /-! ### non-vacuity (tests) -/
 
